@@ -97,6 +97,12 @@ def flush_js(res, node, batch):
         res.count('js_lookups:' + style)
         case = {'leg': 'js-list', 'names': names, 'col': col, 'query_text': req['query']}
         err = o['error'] and '%s: %s' % (o['error']['cls'], o['error']['msg'][:100])
+        if style == 'direct-shared':
+            res.count('js_direct_mode_shared_name_runs')
+            if err is None and o['out'] != req['_expected']:
+                res.violation('js:direct-shared-name-bound-silently', 'JS query_table(%r, headers %r / %r, normalize_column_names=false) -> %r ; the shared bare name must be refused or denote the input table\'s column: %r' % (
+                    req['query'], names, req['join_cols'], o['out'], req['_expected']), dict(case, leg='js-direct-shared', b_names=req['join_cols']))
+            continue
         check_rows(res, 'JS query_table(%r, header %r)' % (req['query'], names), case, o['out'], err, expected(col), 'js-%s' % style)
     del batch[:]
 
@@ -176,6 +182,31 @@ def _leg_lists(ns, res, spec, rng, node, js_batch):
                     res.count('direct_mode_join_lookups')
                     if rj['error'] is not None or rj['rows'] != [[i + 1, 'J%d' % i] for i in range(len(A))]:
                         res.violation('py:direct-join-wrong-column', 'query_table(%r, headers %r / jkey9, jval9, normalize_column_names=False) -> %r error %r' % (qj, names, rj['rows'], rj['error_msg']), {'leg': 'direct-join', 'names': names, 'col': col, 'query_text': qj})
+            # direct mode with a join table that has a column of the SAME name: the bare name is refused wherever it stands in the query text (first, middle, very last
+            # token, before a semicolon or a line break) - or denotes the input table's column; it never silently denotes another column
+            if len(names) >= 2 and not any(x in y or y in x for x in names for y in ('jkey9', 'jval9')):
+                for col, nm in enumerate(names):
+                    oc = (col + 1) % len(names)
+                    n_a = len(A)
+                    B2 = [[A[r][oc], 'BAD%d' % (n_a - r), 'J%d' % r] for r in range(n_a)]          # the join table's column of that name sorts the other way round
+                    bn2 = ['jkey9', nm, 'jval9']
+                    asc = [[i + 1, 'J%d' % i] for i in range(n_a)]
+                    one = [[2, 'J1']] if n_a > 1 else [[1, 'J0']]
+                    lit = qast.lit(A[1 if n_a > 1 else 0][col], '"')
+                    head = 'select NR, jval9 join b on %s == jkey9 ' % names[oc]
+                    for qs, exp2 in ((head + 'order by %s' % nm, asc), (head + 'order by %s desc' % nm, asc[::-1]), (head + 'where %s == %s' % (lit, nm), one), (head + 'where %s == %s;' % (lit, nm), one),
+                                     (head + 'where %s == %s\n' % (lit, nm), one), (head + 'where NR > 0 order by %s ' % nm, asc), ('select NR, jval9, %s join b on %s == jkey9' % (nm, names[oc]), [[i + 1, 'J%d' % i, A[i][col]] for i in range(n_a)]),
+                                     ('select %s join b on %s == jkey9' % (nm, names[oc]), [[A[i][col]] for i in range(n_a)])):
+                        rs = boundary.run_query_table(ns, qs, [list(x) for x in A], [list(x) for x in B2], list(names), list(bn2), False)
+                        res.evaluations += 1
+                        res.count('direct_mode_shared_name_runs')
+                        if rs['error'] is not None:
+                            res.count('direct_mode_shared_name_refusals')
+                        elif rs['rows'] != exp2:
+                            res.violation('py:direct-shared-name-bound-silently', 'query_table(%r, headers %r / %r, normalize_column_names=False) -> %r ; the shared bare name must be refused or denote the input table\'s column: %r' % (
+                                qs, names, bn2, rs['rows'], exp2), {'leg': 'direct-shared', 'names': names, 'b_names': bn2, 'col': col, 'query_text': qs})
+                        if node is not None:
+                            js_batch.append((names, col, 'direct-shared', {'query': qs.replace(' and ', ' && '), 'input': [list(x) for x in A], 'join': [list(x) for x in B2], 'input_cols': list(names), 'join_cols': list(bn2), 'normalize': False, '_expected': exp2}))
         # direct mode, columns NAMED like positional variables of their own table (a3 as the name of the first column, b2 as the name of the join
         # table's third): the header decides - the bare name denotes the column carrying it, not the column at that number
         if n % 4 == 1:
@@ -493,7 +524,7 @@ def run_shard(spec, res):
 def summarize(tier, seed, m):
     return {
         'rule': 'random headers of 1-5 distinct names over printable ASCII incl. both quotes, backslash, backtick, brackets, #, =, %%, spaces, tab, newline, non-ASCII (and prefix / suffix / case variants of each other; names containing an a.ident / b.ident token excluded as quantified) over tables whose cell (r, c) is the unique token r{r}c{c}; for every column and every spelling (a["..."], a[\'...\'], a.name when identifier-safe, bare name in direct mode - also for columns named like positional variables of their own table, a3 as the name of the first column -) the query `select <var>, NR` must return exactly that column and NR = 1.. ; sources: list column names, pandas columns, sqlite columns, CSV header line (query_csv); WITH (header | noheader | headers | noheaders) x caller flag x {input, input + join} on CSV incl. the command line. dataframes whose index carries a name, or is a named two- / three-level MultiIndex, in half of the pandas cases; distinct_nontrivial = distinct (source, header, column, spelling) lookups.',
-        'required': ['with_modifier_from_clause_runs', 'js_lookups', 'js_lookups:bt', 'named_target:update', 'named_target:except', 'named_target:joinkey', 'list_lookups', 'list_lookups:dq', 'list_lookups:sq', 'list_lookups:attr', 'direct_mode_lookups', 'direct_mode_positional_name_lookups', 'pandas_lookups', 'pandas_integer_label_frames', 'pandas_named_index_frames', 'pandas_named_multiindex_frames', 'sqlite_lookups', 'sqlite_tables:generated', 'sqlite_tables:view', 'csv_lookups', 'with_modifier_runs', 'with_modifier_named_join_runs', 'header_never_data_checks', 'cli_with_modifier_runs'],
+        'required': ['direct_mode_shared_name_runs', 'direct_mode_shared_name_refusals', 'js_direct_mode_shared_name_runs', 'with_modifier_from_clause_runs', 'js_lookups', 'js_lookups:bt', 'named_target:update', 'named_target:except', 'named_target:joinkey', 'list_lookups', 'list_lookups:dq', 'list_lookups:sq', 'list_lookups:attr', 'direct_mode_lookups', 'direct_mode_positional_name_lookups', 'pandas_lookups', 'pandas_integer_label_frames', 'pandas_named_index_frames', 'pandas_named_multiindex_frames', 'sqlite_lookups', 'sqlite_tables:generated', 'sqlite_tables:view', 'csv_lookups', 'with_modifier_runs', 'with_modifier_named_join_runs', 'header_never_data_checks', 'cli_with_modifier_runs'],
         'assumptions': ['a.name only for names that are not Python / JS keywords and do not collide with members of the record object; direct mode only for names that do not shadow the engine\'s own locals (documented limitations)'],
     }
 
